@@ -367,6 +367,17 @@ theorem posToA123_a12ToPos (A1 A2 : V3 K) (h : V3.cross A1 A2 ≠ v3zero) (a : K
     posToA123 A1 A2 (a12ToPos A1 A2 a) = ⟨a.1, a.2, 0⟩ := by
   rw [a12ToPos_eq, posToA123, vecMul_inv_cancel _ _ (det_basis_ne A1 A2 h)]
 
+/-- a position with no component along `A1 × A2` passes the out-of-plane test, at every scale. -/
+theorem inPlaneOk_of_z_zero (A1 A2 a : V3 K) (hz : a.z = 0) : inPlaneOk A1 A2 a = true := by
+  simp only [inPlaneOk, hz, mul_zero, zero_mul, decide_eq_true_eq]
+  exact mul_nonneg (mul_nonneg (mul_self_nonneg _) (mul_self_nonneg _)) (mul_nonneg (mul_self_nonneg _) (mul_self_nonneg _))
+
+/-- an in-plane, non-zero x axis passes the guard, at every scale. -/
+theorem xvectOk_of_perp (X Nh : V3 K) (h0 : V3.dot X Nh = 0) (hX : X ≠ v3zero) : xvectOk X Nh = true := by
+  have hp : 0 < V3.dot X X := normSq_pos X hX
+  simp only [xvectOk, h0, mul_zero, Bool.and_eq_true, decide_eq_true_eq]
+  exact ⟨mul_nonneg (mul_self_nonneg _) hp.le, hp⟩
+
 theorem posToA123_z (A1 A2 pos : V3 K) :
     (posToA123 A1 A2 pos).z = V3.dot pos (V3.cross A1 A2) / M3.det ⟨A1, A2, V3.cross A1 A2⟩ := by
   simp only [posToA123, M3.vecMul, M3.inv, V3.dot]
